@@ -70,7 +70,7 @@ class Driver(object):
       # a consumer that hands the transport the next request from inside the callback that delivers a failure (a retry layer)
       def hook(context, msg):
         if msg is not None and getattr(msg, 'error', None) is not None and 'rr' not in self.reqs and context not in ('rr', 'probe', 'bprobe'):
-          self.do_request('rr')
+          self.do_request('rr', direct=True)
       self.term.on_response = hook
     self.reqs = {}
     self.faults_notified = []
@@ -143,7 +143,7 @@ class Driver(object):
     if sink is self.sink:
       self.open_results.append(box)
 
-  def do_request(self, name, deadline=None, sink=None):
+  def do_request(self, name, deadline=None, sink=None, direct=False):
     from scales.compat import BytesIO
     from scales.constants import TransportHeaders
     from scales.message import MethodCallMessage, Deadline
@@ -192,7 +192,10 @@ class Driver(object):
       headers[TransportHeaders.MessageType] = 2
       import gevent
       # the mux transport may block in AsyncProcessRequest while it is still opening
-      gevent.spawn(sink.AsyncProcessRequest, stack, msg, buf, headers)
+      if direct:
+        sink.AsyncProcessRequest(stack, msg, buf, headers)       # synchronously, from inside a callback of the same transport
+      else:
+        gevent.spawn(sink.AsyncProcessRequest, stack, msg, buf, headers)
 
   def fire_mux_timeouts(self):
     """What ClientTimeoutSink does above a mux transport: set the deadline event, drain the stack with TimeoutError."""
